@@ -1154,7 +1154,7 @@ class TrackFileReader:
         raw_version = track_spec.get("version", TrackFileReader.MAXIMUM_SUPPORTED_TRACK_VERSION)
         try:
             track_version = int(raw_version)
-        except ValueError:
+        except (ValueError, TypeError):
             raise exceptions.InvalidSyntax("version identifier for track %s must be numeric but was [%s]" % (track_name, str(raw_version)))
 
         if TrackFileReader.MINIMUM_SUPPORTED_TRACK_VERSION > track_version:
